@@ -59,8 +59,8 @@ var props = map[string]propCfg{
 	},
 	"C08": {
 		level: "fault_enumeration",
-		rule: "per run: (A) a generated program and history checked stride by stride against the reference's completed executions; (B) for an action with n<=4 emits, failure after the k-th emit for every k in [0,n] x {throw, bad return, unserialisable emit}, as first or second action of a three-message walk, under a tape-chosen error-routing mode, with or without an emitting guard; distinct = distinct (program, n, mode, position)",
-		parts: []part{{name: "core", engine: "core", quick: 2500, thorough: 150000}, {name: "sio", engine: "sio", quick: 1500, thorough: 100000}},
+		rule: "per run: (A) a generated program and history checked stride by stride against the reference's completed executions; (B) for an action with n<=4 emits, failure after the k-th emit for every k in [0,n] x {throw, bad return, unserialisable emit}, as first or second action of a three-message walk, under a tape-chosen error-routing mode, with or without an emitting guard; (C) failure by timeout: a script of n<=4 emissions separated by tick() calls, the deadline placed inside the tick after the k-th emission for every k in [0,n] on the simulated clock, via Exec/Step/Walk under a tape-chosen error-routing mode; sio: the same through a crew's Result.Emitted; distinct = distinct (program, n, mode, position)",
+		parts: []part{{name: "core", engine: "core", quick: 2500, thorough: 150000}, {name: "sio", engine: "sio", quick: 1500, thorough: 100000}, {name: "timeout", engine: "core", quick: 400, thorough: 30000}},
 		comps: []string{"real: core.Spec.Compile/Step/Walk, match.Match, interpreters/ecmascript (goja) - instrumented copies with the map-order seam", "reference: /verif/ref machine + mini-matcher (written from the documentation)", "injected: action/guard failures (throw, bad return, unserialisable emit, null, stub interpreter results), map iteration orders"},
 	},
 	"C09": {
